@@ -7,3 +7,6 @@
 		VP_HAVOC_PROTO(); VP_HAVOC_SYNC();    \
 	} while (0)
 void h_pair1_pipe_recv_cb(void) { void *arg; VP_HAVOC_GHOSTS(); pair1_pipe_recv_cb(arg); VP_CANARY(); }
+void h_pair1_pipe_send(void) { pair1_pipe *p; nni_msg *m; VP_HAVOC_GHOSTS(); pair1_pipe_send(p, m); VP_CANARY(); }
+void h_pair1_pipe_start(void) { void *arg; VP_HAVOC_GHOSTS(); g_p1_sched_calls = nondet_size_t(); __CPROVER_assume(g_p1_sched_calls < ((size_t) 1 << 40)); pair1_pipe_start(arg); VP_CANARY(); }
+void h_pair1_sock_send(void) { void *arg; nni_aio *aio; VP_HAVOC_GHOSTS(); pair1_sock_send(arg, aio); VP_CANARY(); }
